@@ -644,12 +644,12 @@ Lemma mov_range : 0 <= MOV < 128. Proof. unfold MOV. lia. Qed.
 Lemma tmp_range : 0 <= AddrTmp < 8. Proof. unfold AddrTmp. lia. Qed.
 Lemma stck_range : 0 <= AddrStck < 8. Proof. unfold AddrStck. lia. Qed.
 
-Lemma binop_spec opname c compL compR same DL DR sel fl s s' w :
+Lemma binop_spec opname c compL compR nc same DL DR sel fl s s' w :
   binop_opcode opname = Some c -> 0 <= sel <= 2 ->
   compiles compL DL -> compiles compR DR ->
-  (same = true -> forall G, DR G = DL G) ->
+  (nc = false -> same = true -> forall G, DR G = DL G) ->
   wfcs s ->
-  comp_binop opname compL compR false false same sel fl s = COk (w, s') ->
+  comp_binop opname compL compR false nc same sel fl s = COk (w, s') ->
   SpecD (dbin c DL DR) sel fl s s' w.
 Proof.
   intros Hc Hsel HL HR Hsame Hwf H.
@@ -702,9 +702,10 @@ Proof.
                    (temp1 = false /\
                     exists C3, lay s s3 C3 /\ wfcs s3 /\ RunsK (dbin c DL DR) (ForbidTemp fl) s s3 s3 C3 AddrStck 0)).
   { destruct Stage1 as [(-> & Hfb & P1 & L1 & W2 & D21 & X1)|(-> & -> & NK)].
-    - left. conj; [reflexivity|exact Hfb|]. cbn [andb negb] in Hmid.
-      destruct same.
+    - left. conj; [reflexivity|exact Hfb|]. cbn [andb] in Hmid.
+      destruct (negb nc && same) eqn:Ens.
       + (* x op x *)
+        apply andb_prop in Ens. destruct Ens as [En Es]. apply negb_true_iff in En.
         apply cbind_ok in Hmid. destruct Hmid as [u1 [sa [Hem Hmid]]]. apply emit_ok in Hem. subst sa.
         apply cbind_ok in Hmid. destruct Hmid as [wst [sb [Hen Hmid]]]. apply enc_ok in Hen. destruct Hen as [-> Ewst].
         apply emit_ok in Hmid. subst s3.
@@ -714,7 +715,7 @@ Proof.
           apply lay_emit. apply lay_emit. exact L1.
         * apply wfcs_emitted. apply wfcs_emitted. exact W2.
         * apply (RunsT_ext (dbin c DL DL)).
-          { intros G. unfold dbin. rewrite (Hsame eq_refl G). reflexivity. }
+          { intros G. unfold dbin. rewrite (Hsame En Es G). reflexivity. }
           apply (RunsT_data _ s _ s1 _ _ []); [|cbn [emitted rds app]; exact D21].
           apply (RunsT_same DL c s s2 s1 P1 _ _ 0 0 0 0 0 0 0 0 0 0 X1 (proj1 (proj2 L1)) Hb).
           -- apply decode_op. exact pushtmp_range.
@@ -983,45 +984,682 @@ Proof.
   destruct (String.eqb op "~"); [exists FLIP; conj; reflexivity|]. discriminate.
 Qed.
 
+(* ================= two- and three-operand instructions: indexing ================= *)
+Section ExecMore.
+  Variables (rr : bool) (v : vm) (mid : Z).
+
+  (* an instruction that fetches operand 0, then operand 1, and pushes F x1 x0 *)
+  Lemma exec_two (F : value -> value -> res value) instr K0 A0 K1 A1 b m0 m1 r1 m2 r2 a x :
+    (forall m r, at_ip v r mid instr ->
+       step (St v mid m) r rr =
+       lift (p0 <~ fetch (St v mid m) mid K0 A0 ;; let (v0, x0) := p0 in
+             p1 <~ fetch v0 mid K1 A1 ;; let (v1, x1) := p1 in
+             match F x1 x0 with
+             | Fail e => Good (SErr v1 (r_ctx r) (r_ip r) e [x1; x0])
+             | Ok y => v2 <~ vPush v1 mid y ;; Good (next v2 r)
+             end)) ->
+    at_ip v r2 mid instr -> 0 <= b ->
+    opnd v b K1 A1 a m1 r1 -> K1 <> AddrTmp -> msame b m0 m1 ->
+    opnd v (m_sp m1) K0 A0 x m2 r2 -> K0 <> AddrTmp -> msame (m_sp m1) m1 m2 ->
+    match F a x with
+    | Ok y => exists m3, steps rr 1 (St v mid m2) r2 = SNext (St v mid m3) (with_ip r2 (r_ip r2 + 1)) /\
+                         msame b m0 m3 /\ m_sp m3 = b + 1 /\ znth (m_stack m3) b = Some y
+    | Fail e => exists me vals, steps rr 1 (St v mid m2) r2 = SErr (St v mid me) (r_ctx r2) (r_ip r2) e vals
+    end.
+  Proof.
+    intros Hstep Hat Hb0 Ho1 Hk1 Hm1 Ho0 Hk0 Hm2.
+    destruct (fetch_opnd v mid (m_sp m1) m1 K0 A0 x m2 r2 Ho0 Hk0 Hm2) as [m2' [Hf0 [Hm2' Hs2']]].
+    pose proof (opnd_transfer v b K1 A1 a m1 r1 m2' r2 Ho1 Hk1 Hm2' Hs2' Hb0) as Ho1'.
+    assert (Hm02' : msame b m0 m2').
+    { apply (msame_trans b (m_sp m1) m0 m1 m2'); [destruct Hm1 as (_&_&_&_&_&B); lia|exact Hm1|exact Hm2']. }
+    destruct (fetch_opnd v mid b m0 K1 A1 a m2' r2 Ho1' Hk1 Hm02') as [m2'' [Hf1 [Hm2'' Hs2'']]].
+    rewrite steps_one, (Hstep m2 r2 Hat), Hf0. cbn [obind]. rewrite Hf1. cbn [obind].
+    destruct (F a x) as [y|e]; cbn [lift].
+    - assert (Hsp : 0 <= m_sp m2'' <= zlen (m_stack m2'')) by (destruct Hm2'' as (_&_&_&_&_&B); lia).
+      destruct (vPush_St v mid m2'' y Hsp) as [m3 [Hp [Hm3 [Hs3 Hx3]]]].
+      rewrite Hp. cbn [obind lift next]. exists m3. conj; [reflexivity| |lia|rewrite <- Hs2''; exact Hx3].
+      apply (msame_trans b (m_sp m2'') m0 m2'' m3); [lia|exact Hm2''|exact Hm3].
+    - eauto.
+  Qed.
+
+  (* fetches operand 0, 1, 2 and pushes F x2 x1 x0 *)
+  Lemma exec_three (F : value -> value -> value -> res value) instr K0 A0 K1 A1 K2 A2
+        b m0 m1 r1 m2 r2 m3 r3 a f t :
+    (forall m r, at_ip v r mid instr ->
+       step (St v mid m) r rr =
+       lift (p0 <~ fetch (St v mid m) mid K0 A0 ;; let (v0, x0) := p0 in
+             p1 <~ fetch v0 mid K1 A1 ;; let (v1, x1) := p1 in
+             p2 <~ fetch v1 mid K2 A2 ;; let (v2, x2) := p2 in
+             match F x2 x1 x0 with
+             | Fail e => Good (SErr v2 (r_ctx r) (r_ip r) e [x2; x1; x0])
+             | Ok y => v3 <~ vPush v2 mid y ;; Good (next v3 r)
+             end)) ->
+    at_ip v r3 mid instr -> 0 <= b ->
+    opnd v b K2 A2 a m1 r1 -> K2 <> AddrTmp -> msame b m0 m1 ->
+    opnd v (m_sp m1) K1 A1 f m2 r2 -> K1 <> AddrTmp -> msame (m_sp m1) m1 m2 ->
+    opnd v (m_sp m2) K0 A0 t m3 r3 -> K0 <> AddrTmp -> msame (m_sp m2) m2 m3 ->
+    match F a f t with
+    | Ok y => exists m4, steps rr 1 (St v mid m3) r3 = SNext (St v mid m4) (with_ip r3 (r_ip r3 + 1)) /\
+                         msame b m0 m4 /\ m_sp m4 = b + 1 /\ znth (m_stack m4) b = Some y
+    | Fail e => exists me vals, steps rr 1 (St v mid m3) r3 = SErr (St v mid me) (r_ctx r3) (r_ip r3) e vals
+    end.
+  Proof.
+    intros Hstep Hat Hb0 Ho2 Hk2 Hm1 Ho1 Hk1 Hm2 Ho0 Hk0 Hm3.
+    assert (B1 : b <= m_sp m1) by (destruct Hm1 as (_&_&_&_&_&B); lia).
+    assert (B2 : m_sp m1 <= m_sp m2) by (destruct Hm2 as (_&_&_&_&_&B); lia).
+    destruct (fetch_opnd v mid (m_sp m2) m2 K0 A0 t m3 r3 Ho0 Hk0 Hm3) as [ma [Hf0 [Hma Hsa]]].
+    pose proof (opnd_transfer v (m_sp m1) K1 A1 f m2 r2 ma r3 Ho1 Hk1 Hma Hsa ltac:(lia)) as Ho1'.
+    assert (Hm1a : msame (m_sp m1) m1 ma).
+    { apply (msame_trans (m_sp m1) (m_sp m2) m1 m2 ma); [lia|exact Hm2|exact Hma]. }
+    destruct (fetch_opnd v mid (m_sp m1) m1 K1 A1 f ma r3 Ho1' Hk1 Hm1a) as [mb [Hf1 [Hmb Hsb]]].
+    pose proof (opnd_transfer v b K2 A2 a m1 r1 mb r3 Ho2 Hk2 Hmb Hsb Hb0) as Ho2'.
+    assert (Hm0b : msame b m0 mb).
+    { apply (msame_trans b (m_sp m1) m0 m1 mb); [lia|exact Hm1|exact Hmb]. }
+    destruct (fetch_opnd v mid b m0 K2 A2 a mb r3 Ho2' Hk2 Hm0b) as [mc [Hf2 [Hmc Hsc]]].
+    rewrite steps_one, (Hstep m3 r3 Hat), Hf0. cbn [obind]. rewrite Hf1. cbn [obind]. rewrite Hf2. cbn [obind].
+    destruct (F a f t) as [y|e]; cbn [lift].
+    - assert (Hsp : 0 <= m_sp mc <= zlen (m_stack mc)) by (destruct Hmc as (_&_&_&_&_&B); lia).
+      destruct (vPush_St v mid mc y Hsp) as [m4 [Hp [Hm4 [Hs4 Hx4]]]].
+      rewrite Hp. cbn [obind lift next]. exists m4. conj; [reflexivity| |lia|rewrite <- Hsc; exact Hx4].
+      apply (msame_trans b (m_sp mc) m0 mc m4); [lia|exact Hmc|exact Hm4].
+    - eauto.
+  Qed.
+
+  (* ARR: append the element to the array *)
+  Lemma exec_arr instr K0 A0 K1 A1 k2 a2 b m0 m1 r1 m2 r2 acc x :
+    at_ip v r2 mid instr ->
+    decode instr = {| f_op := ARR; f_k0 := K0; f_k1 := K1; f_k2 := k2; f_a0 := A0; f_a1 := A1; f_a2 := a2 |} ->
+    0 <= b ->
+    opnd v b K1 A1 (VArr acc) m1 r1 -> K1 <> AddrTmp -> msame b m0 m1 ->
+    opnd v (m_sp m1) K0 A0 x m2 r2 -> K0 <> AddrTmp -> msame (m_sp m1) m1 m2 ->
+    exists m3, steps rr 1 (St v mid m2) r2 = SNext (St v mid m3) (with_ip r2 (r_ip r2 + 1)) /\
+               msame b m0 m3 /\ m_sp m3 = b + 1 /\ znth (m_stack m3) b = Some (VArr (acc ++ [x])).
+  Proof.
+    intros Hat Hd Hb0 Ho1 Hk1 Hm1 Ho0 Hk0 Hm2.
+    destruct (fetch_opnd v mid (m_sp m1) m1 K0 A0 x m2 r2 Ho0 Hk0 Hm2) as [m2' [Hf0 [Hm2' Hs2']]].
+    pose proof (opnd_transfer v b K1 A1 (VArr acc) m1 r1 m2' r2 Ho1 Hk1 Hm2' Hs2' Hb0) as Ho1'.
+    assert (Hm02' : msame b m0 m2').
+    { apply (msame_trans b (m_sp m1) m0 m1 m2'); [destruct Hm1 as (_&_&_&_&_&B); lia|exact Hm1|exact Hm2']. }
+    destruct (fetch_opnd v mid b m0 K1 A1 (VArr acc) m2' r2 Ho1' Hk1 Hm02') as [m2'' [Hf1 [Hm2'' Hs2'']]].
+    rewrite steps_one, (step_arr v mid m2 r2 rr instr _ _ _ _ _ _ Hat Hd), Hf0. cbn [obind]. rewrite Hf1. cbn [obind].
+    assert (Hsp : 0 <= m_sp m2'' <= zlen (m_stack m2'')) by (destruct Hm2'' as (_&_&_&_&_&B); lia).
+    destruct (vPush_St v mid m2'' (VArr (acc ++ [x])) Hsp) as [m3 [Hp [Hm3 [Hs3 Hx3]]]].
+    rewrite Hp. cbn [obind lift next]. exists m3. conj; [reflexivity| |lia|rewrite <- Hs2''; exact Hx3].
+    apply (msame_trans b (m_sp m2'') m0 m2'' m3); [lia|exact Hm2''|exact Hm3].
+  Qed.
+End ExecMore.
+
+Definition dtwo (F : value -> value -> res value) (DL DR : GD) : GD :=
+  fun G => match DL G with
+           | Fail e => Fail e
+           | Ok a => match DR G with Fail e => Fail e | Ok b => F a b end
+           end.
+
+Definition dthree (F : value -> value -> value -> res value) (DA DF DT : GD) : GD :=
+  fun G => match DA G with
+           | Fail e => Fail e
+           | Ok a => match DF G with
+                     | Fail e => Fail e
+                     | Ok f => match DT G with Fail e => Fail e | Ok t => F a f t end
+                     end
+           end.
+
+(* code of the left operand, code of the right operand, then the instruction *)
+Lemma RunsK_two (F : value -> value -> res value) DL DR keep s s1 s3 sd P Q K1 A1 K0 A0 opi :
+  (forall rr v mid m r, at_ip v r mid opi ->
+     step (St v mid m) r rr =
+     lift (p0 <~ fetch (St v mid m) mid K0 A0 ;; let (v0, x0) := p0 in
+           p1 <~ fetch v0 mid K1 A1 ;; let (v1, x1) := p1 in
+           match F x1 x0 with
+           | Fail e => Good (SErr v1 (r_ctx r) (r_ip r) e [x1; x0])
+           | Ok y => v2 <~ vPush v1 mid y ;; Good (next v2 r)
+           end)) ->
+  RunsK DL keep s s1 sd P K1 A1 -> K1 <> AddrTmp -> ncs s1 = ncs s + zlen P ->
+  RunsK DR keep s1 s3 sd Q K0 A0 -> K0 <> AddrTmp -> ncs s3 = ncs s1 + zlen Q ->
+  RunsK (dtwo F DL DR) keep s (emitted s3 opi) sd (P ++ Q ++ [opi]) AddrStck 0.
+Proof.
+  intros Hstep HL Hk1 Hn1 HR Hk0 Hn3 rr v mid m r Hc Hdat Hm Hsp Hip.
+  assert (Hi : znth (v_cs v) (ncs s + zlen P + zlen Q) = Some opi).
+  { apply code_at_app in Hc. destruct Hc as [_ Hc]. exact (code_at_nth v _ Q opi [] Hc). }
+  apply code_at_app in Hc. destruct Hc as [HcP HcQ].
+  apply code_at_app in HcQ. destruct HcQ as [HcQ _].
+  specialize (HL rr v mid m r HcP Hdat Hm Hsp Hip).
+  rewrite app_length, steps_app. unfold dtwo.
+  destruct (DL (v_globals v)) as [a|err].
+  - destruct HL as [m1 [r1 [Hs [Hms [Hctx [Hip1 [Hkeep1 Ho1]]]]]]]. rewrite Hs.
+    assert (Hsp1' : 0 <= m_sp m1 <= zlen (m_stack m1)) by (destruct Hms as (_&_&_&_&_&B); lia).
+    rewrite <- Hn1 in HcQ.
+    specialize (HR rr v mid m1 r1 HcQ Hdat).
+    rewrite (cur_mid_ctx v r r1 Hctx) in HR. specialize (HR Hm Hsp1' Hip1).
+    rewrite length_app1, steps_app.
+    destruct (DR (v_globals v)) as [x|err].
+    + destruct HR as [m2 [r2 [Hs2 [Hm2 [Hctx2 [Hip2 [Hkeep2 Ho0]]]]]]]. rewrite Hs2.
+      assert (Hat : at_ip v r2 mid opi).
+      { split; [rewrite Hip2, Hn3, Hn1; exact Hi|].
+        rewrite (cur_mid_ctx v r r2); [exact Hm|congruence]. }
+      pose proof (exec_two rr v mid F opi K0 A0 K1 A1 (m_sp m) m m1 r1 m2 r2 a x (Hstep rr v mid) Hat
+                    (proj1 Hsp) Ho1 Hk1 Hms Ho0 Hk0 Hm2) as E.
+      destruct (F a x) as [y|e].
+      * destruct E as [m3 [Hs3 [Hm3 [Hsp3 Hx3]]]]. rewrite Hs3.
+        exists m3, (with_ip r2 (r_ip r2 + 1)).
+        conj; try assumption; try reflexivity.
+        -- cbn [with_ip r_ctx]. congruence.
+        -- cbn [with_ip r_ip emitted ncs]. lia.
+        -- intros Hk. cbn [with_ip r_tmp]. rewrite (Hkeep2 Hk). apply Hkeep1. exact Hk.
+        -- left. conj; [reflexivity|exact Hsp3|exact Hx3].
+      * destruct E as [me [vals E]]. rewrite E. replace (r_ctx r2) with (r_ctx r) by congruence. eauto.
+    + destruct HR as [me [ip [vals HR]]]. rewrite HR. rewrite Hctx. eauto.
+  - destruct HL as [me [ip [vals Hs]]]. rewrite Hs. eauto.
+Qed.
+
+Lemma RunsK_three (F : value -> value -> value -> res value) DA DF DT keep s s1 s2 s3 sd P Q R
+      K2 A2 K1 A1 K0 A0 opi :
+  (forall rr v mid m r, at_ip v r mid opi ->
+     step (St v mid m) r rr =
+     lift (p0 <~ fetch (St v mid m) mid K0 A0 ;; let (v0, x0) := p0 in
+           p1 <~ fetch v0 mid K1 A1 ;; let (v1, x1) := p1 in
+           p2 <~ fetch v1 mid K2 A2 ;; let (v2, x2) := p2 in
+           match F x2 x1 x0 with
+           | Fail e => Good (SErr v2 (r_ctx r) (r_ip r) e [x2; x1; x0])
+           | Ok y => v3 <~ vPush v2 mid y ;; Good (next v3 r)
+           end)) ->
+  RunsK DA keep s s1 sd P K2 A2 -> K2 <> AddrTmp -> ncs s1 = ncs s + zlen P ->
+  RunsK DF keep s1 s2 sd Q K1 A1 -> K1 <> AddrTmp -> ncs s2 = ncs s1 + zlen Q ->
+  RunsK DT keep s2 s3 sd R K0 A0 -> K0 <> AddrTmp -> ncs s3 = ncs s2 + zlen R ->
+  RunsK (dthree F DA DF DT) keep s (emitted s3 opi) sd (P ++ Q ++ R ++ [opi]) AddrStck 0.
+Proof.
+  intros Hstep HA Hk2 Hn1 HF Hk1 Hn2 HT Hk0 Hn3 rr v mid m r Hc Hdat Hm Hsp Hip.
+  assert (Hi : znth (v_cs v) (ncs s + zlen P + zlen Q + zlen R) = Some opi).
+  { apply code_at_app in Hc. destruct Hc as [_ Hc]. apply code_at_app in Hc. destruct Hc as [_ Hc].
+    exact (code_at_nth v _ R opi [] Hc). }
+  apply code_at_app in Hc. destruct Hc as [HcP HcQ].
+  apply code_at_app in HcQ. destruct HcQ as [HcQ HcR].
+  apply code_at_app in HcR. destruct HcR as [HcR _].
+  specialize (HA rr v mid m r HcP Hdat Hm Hsp Hip).
+  rewrite app_length, steps_app. unfold dthree.
+  destruct (DA (v_globals v)) as [a|err].
+  - destruct HA as [m1 [r1 [Hs1 [Hms1 [Hctx1 [Hip1 [Hkeep1 Ho2]]]]]]]. rewrite Hs1.
+    assert (Hsp1 : 0 <= m_sp m1 <= zlen (m_stack m1)) by (destruct Hms1 as (_&_&_&_&_&B); lia).
+    rewrite <- Hn1 in HcQ.
+    specialize (HF rr v mid m1 r1 HcQ Hdat).
+    rewrite (cur_mid_ctx v r r1 Hctx1) in HF. specialize (HF Hm Hsp1 Hip1).
+    rewrite app_length, steps_app.
+    destruct (DF (v_globals v)) as [f|err].
+    + destruct HF as [m2 [r2 [Hs2 [Hms2 [Hctx2 [Hip2 [Hkeep2 Ho1]]]]]]]. rewrite Hs2.
+      assert (Hsp2 : 0 <= m_sp m2 <= zlen (m_stack m2)) by (destruct Hms2 as (_&_&_&_&_&B); lia).
+      rewrite <- Hn1, <- Hn2 in HcR.
+      specialize (HT rr v mid m2 r2 HcR Hdat).
+      rewrite (cur_mid_ctx v r r2) in HT by congruence. specialize (HT Hm Hsp2 Hip2).
+      rewrite length_app1, steps_app.
+      destruct (DT (v_globals v)) as [t|err].
+      * destruct HT as [m3 [r3 [Hs3 [Hms3 [Hctx3 [Hip3 [Hkeep3 Ho0]]]]]]]. rewrite Hs3.
+        assert (Hat : at_ip v r3 mid opi).
+        { split; [rewrite Hip3, Hn3, Hn2, Hn1; exact Hi|].
+          rewrite (cur_mid_ctx v r r3); [exact Hm|congruence]. }
+        pose proof (exec_three rr v mid F opi K0 A0 K1 A1 K2 A2 (m_sp m) m m1 r1 m2 r2 m3 r3 a f t (Hstep rr v mid) Hat
+                      (proj1 Hsp) Ho2 Hk2 Hms1 Ho1 Hk1 Hms2 Ho0 Hk0 Hms3) as E.
+        destruct (F a f t) as [y|e].
+        -- destruct E as [m4 [Hs4 [Hm4 [Hsp4 Hx4]]]]. rewrite Hs4.
+           exists m4, (with_ip r3 (r_ip r3 + 1)).
+           conj; try assumption; try reflexivity.
+           ++ cbn [with_ip r_ctx]. congruence.
+           ++ cbn [with_ip r_ip emitted ncs]. lia.
+           ++ intros Hk. cbn [with_ip r_tmp]. rewrite (Hkeep3 Hk), (Hkeep2 Hk). apply Hkeep1. exact Hk.
+           ++ left. conj; [reflexivity|exact Hsp4|exact Hx4].
+        -- destruct E as [me [vals E]]. rewrite E. replace (r_ctx r3) with (r_ctx r) by congruence. eauto.
+      * destruct HT as [me [ip [vals HT]]]. rewrite HT. replace (r_ctx r2) with (r_ctx r) by congruence. eauto.
+    + destruct HF as [me [ip [vals HF]]]. rewrite HF. rewrite Hctx1. eauto.
+  - destruct HA as [me [ip [vals Hs]]]. rewrite Hs. eauto.
+Qed.
+
+(* ---- a[i] and a[f:t] ---- *)
+Lemma ix1_range : 0 <= IX1 < 128. Proof. unfold IX1. lia. Qed.
+Lemma ix2_range : 0 <= IX2 < 128. Proof. unfold IX2. lia. Qed.
+Lemma arr_range : 0 <= ARR < 128. Proof. unfold ARR. lia. Qed.
+Lemma ds_range : 0 <= AddrDS < 8. Proof. unfold AddrDS. lia. Qed.
+
+(* a sub-expression compiled at operator depth 0 for a consumer that neither discards nor accepts
+   the temp register: its operand is never the temp register *)
+Lemma spec_depth0 D sel fl s s' w :
+  SpecD D sel (withOpDepth 0 (pass fl)) s s' w ->
+  exists code K A, lay s s' code /\ wfcs s' /\ EncodeSrc sel K A = Some w /\ okind K /\ K <> AddrTmp /\
+                   RunsK D (ForbidTemp fl) s s' s' code K A.
+Proof.
+  intros H. apply SpecD_lay in H. destruct H as [code [K [A (L & W & E & Ok & _ & NT & X)]]].
+  exists code, K, A. cbn [ForbidTemp OpDepth Discard AcceptTemp withOpDepth pass] in *.
+  conj; try assumption. apply NT; reflexivity.
+Qed.
+
+Lemma ix1_spec compA compI DA DI sel fl s s' w :
+  0 <= sel <= 2 -> compiles compA DA -> compiles compI DI -> wfcs s ->
+  (ary <- compA 1 (withOpDepth 0 (pass fl)) ;;
+   at_ <- compI 0 (withOpDepth 0 (pass fl)) ;;
+   emit (Z.lor (Z.lor (New IX1) ary) at_) ;;;
+   enc sel AddrStck 0) s = COk (w, s') ->
+  SpecD (dtwo Index1 DA DI) sel fl s s' w.
+Proof.
+  intros Hsel HA HI Hwf H.
+  apply cbind_ok in H. destruct H as [wa [s1 [Ha H]]].
+  apply HA in Ha; [|lia|exact Hwf]. apply spec_depth0 in Ha.
+  destruct Ha as [P [Ka [Aa (La & Wa & Ea & Oka & NTa & Xa)]]].
+  apply cbind_ok in H. destruct H as [wi [s2 [Hi H]]].
+  apply HI in Hi; [|lia|exact Wa]. apply spec_depth0 in Hi.
+  destruct Hi as [Q [Ki [Ai (Li & Wi & Ei & Oki & NTi & Xi)]]].
+  apply cbind_ok in H. destruct H as [u [s3 [Hem H]]]. apply emit_ok in Hem. subst s3.
+  apply enc_ok in H. destruct H as [-> Ew].
+  apply SpecD_lay. exists (P ++ Q ++ [Z.lor (Z.lor (New IX1) wa) wi]), AddrStck, 0. conj.
+  - rewrite app_assoc. apply lay_emit. apply (lay_trans s s1 s2); assumption.
+  - apply wfcs_emitted. exact Wi.
+  - exact Ew.
+  - left. reflexivity.
+  - discriminate.
+  - discriminate.
+  - destruct Li as (Ri & Ni & [di Di]).
+    apply (RunsK_data _ _ s _ s2 _ _ _ _ []); [|reflexivity].
+    apply (RunsK_two Index1 DA DI (ForbidTemp fl) s s1 s2 s2 P Q Ka Aa Ki Ai).
+    + intros rr v mid m r Hat. apply (step_ix1 v mid m r rr _ Ki Ai Ka Aa 0 0 Hat).
+      apply (decode_op01 IX1 Ki Ai Ka Aa wi wa ix1_range (okind_range Ki Oki) (okind_range Ka Oka) Ei Ea).
+    + apply (RunsK_data _ _ s s1 s1 s2 P Ka Aa di Xa Di).
+    + exact NTa.
+    + exact (proj1 (proj2 La)).
+    + exact Xi.
+    + exact NTi.
+    + exact Ni.
+Qed.
+
+Lemma ix2_spec compA compF compT DA DF DT sel fl s s' w :
+  0 <= sel <= 2 -> compiles compA DA -> compiles compF DF -> compiles compT DT -> wfcs s ->
+  (ary <- compA 2 (withOpDepth 0 (pass fl)) ;;
+   from <- compF 1 (withOpDepth 0 (pass fl)) ;;
+   to <- compT 0 (withOpDepth 0 (pass fl)) ;;
+   emit (Z.lor (Z.lor (Z.lor (New IX2) ary) from) to) ;;;
+   enc sel AddrStck 0) s = COk (w, s') ->
+  SpecD (dthree Index2 DA DF DT) sel fl s s' w.
+Proof.
+  intros Hsel HA HF HT Hwf H.
+  apply cbind_ok in H. destruct H as [wa [s1 [Ha H]]].
+  apply HA in Ha; [|lia|exact Hwf]. apply spec_depth0 in Ha.
+  destruct Ha as [P [Ka [Aa (La & Wa & Ea & Oka & NTa & Xa)]]].
+  apply cbind_ok in H. destruct H as [wf [s2 [Hf H]]].
+  apply HF in Hf; [|lia|exact Wa]. apply spec_depth0 in Hf.
+  destruct Hf as [Q [Kf [Af (Lf & Wf & Ef & Okf & NTf & Xf)]]].
+  apply cbind_ok in H. destruct H as [wt [s3 [Ht H]]].
+  apply HT in Ht; [|lia|exact Wf]. apply spec_depth0 in Ht.
+  destruct Ht as [R [Kt [At (Lt & Wt & Et & Okt & NTt & Xt)]]].
+  apply cbind_ok in H. destruct H as [u [s4 [Hem H]]]. apply emit_ok in Hem. subst s4.
+  apply enc_ok in H. destruct H as [-> Ew].
+  apply SpecD_lay. exists (P ++ Q ++ R ++ [Z.lor (Z.lor (Z.lor (New IX2) wa) wf) wt]), AddrStck, 0. conj.
+  - replace (P ++ Q ++ R ++ [Z.lor (Z.lor (Z.lor (New IX2) wa) wf) wt])
+      with (((P ++ Q) ++ R) ++ [Z.lor (Z.lor (Z.lor (New IX2) wa) wf) wt]) by (rewrite <- !app_assoc; reflexivity).
+    apply lay_emit. apply (lay_trans s s2 s3); [apply (lay_trans s s1 s2); assumption|assumption].
+  - apply wfcs_emitted. exact Wt.
+  - exact Ew.
+  - left. reflexivity.
+  - discriminate.
+  - discriminate.
+  - destruct Lf as (Rf & Nf & [df Df]). destruct Lt as (Rt & Nt & [dt Dt]).
+    apply (RunsK_data _ _ s _ s3 _ _ _ _ []); [|reflexivity].
+    apply (RunsK_three Index2 DA DF DT (ForbidTemp fl) s s1 s2 s3 s3 P Q R Ka Aa Kf Af Kt At).
+    + intros rr v mid m r Hat. apply (step_ix2 v mid m r rr _ Kt At Kf Af Ka Aa Hat).
+      apply (decode_op012 IX2 Kt At Kf Af Ka Aa wt wf wa ix2_range (okind_range Kt Okt) (okind_range Kf Okf)
+               (okind_range Ka Oka) Et Ef Ea).
+    + apply (RunsK_data _ _ s s1 s1 s3 P Ka Aa (dt ++ df) Xa). rewrite Dt, Df, app_assoc. reflexivity.
+    + exact NTa.
+    + exact (proj1 (proj2 La)).
+    + apply (RunsK_data _ _ s1 s2 s2 s3 Q Kf Af dt Xf Dt).
+    + exact NTf.
+    + exact Nf.
+    + exact Xt.
+    + exact NTt.
+    + exact Nt.
+Qed.
+
+(* ================= array literals ================= *)
+Definition list_go (fl : flags) (k : nat) (ix : Z) :=
+  fix go (l : list node) (i : nat) : CM unit :=
+    match l with
+    | [] => cret tt
+    | x :: l' =>
+        if Nat.ltb i k then go l' (S i)
+        else
+          i0 <- comp x 0 (withOpDepth 0 (pass fl)) ;;
+          w <- (if Nat.eqb i k then enc 1 AddrDS ix else enc 1 AddrStck 0) ;;
+          emit (Z.lor (Z.lor i0 (New ARR)) w) ;;; go l' (S i)
+    end.
+
+Lemma comp_list_unfold elems sel fl :
+  comp (NList elems) sel fl =
+  (let ary := const_prefix elems in
+   let k := List.length ary in
+   ix <- add_ds (VArr ary) ;;
+   if Nat.leb (List.length elems) k then enc sel AddrDS ix
+   else list_go fl k ix elems O ;;; enc sel AddrStck 0).
+Proof. reflexivity. Qed.
+
+Lemma list_go_skip fl k ix : forall l i, (i <= k)%nat -> (k - i <= List.length l)%nat ->
+  list_go fl k ix l i = list_go fl k ix (skipn (k - i) l) k.
+Proof.
+  induction l as [|x l IH]; intros i Hi Hl.
+  - cbn [List.length] in Hl. replace (k - i)%nat with 0%nat by lia. reflexivity.
+  - cbn [list_go]. destruct (Nat.ltb_spec i k) as [Hlt|Hge].
+    + rewrite (IH (S i)) by (cbn [List.length] in Hl; lia).
+      replace (k - i)%nat with (S (k - S i)) by lia. reflexivity.
+    + replace (k - i)%nat with 0%nat by lia. cbn [skipn list_go].
+      assert (i = k) by lia. subst i. rewrite Nat.ltb_irrefl. reflexivity.
+Qed.
+
+(* constants mean their value *)
+Definition const_list := fix go (l : list node) : option (list value) :=
+  match l with
+  | [] => Some []
+  | x :: r => match constant x, go r with
+              | Some v, Some vs => Some (v :: vs)
+              | _, _ => None
+              end
+  end.
+
+Lemma constant_list l : constant (NList l) = option_map VArr (const_list l).
+Proof. reflexivity. Qed.
+
+Lemma constant_den : forall x, pure x = true -> forall G v, constant x = Some v -> den G x = Ok v.
+Proof.
+  apply (pure_induction (fun x => forall G v, constant x = Some v -> den G x = Ok v));
+    try (intros; cbn [constant] in *; discriminate);
+    try (intros; cbn [constant den] in *; congruence).
+  - intros l _ HF G v H. rewrite constant_list in H. cbn [den].
+    assert (E : forall vs, const_list l = Some vs -> seq_res (den G) l = Ok vs).
+    { clear H. induction HF as [|x r Hx Hr IH]; intros vs H; cbn [const_list seq_res] in *; [congruence|].
+      destruct (constant x) as [vx|] eqn:Ex; [|discriminate].
+      destruct (const_list r) as [vr|] eqn:Er; [|discriminate].
+      rewrite (Hx G vx eq_refl), (IH vr eq_refl). congruence. }
+    destruct (const_list l) as [vs|]; [|discriminate]. cbn [option_map] in H. rewrite (E vs eq_refl). congruence.
+Qed.
+
+Lemma const_prefix_split : forall elems, forallb pure elems = true ->
+  (List.length (const_prefix elems) <= List.length elems)%nat /\
+  forall G, seq_res (den G) elems =
+            match seq_res (den G) (skipn (List.length (const_prefix elems)) elems) with
+            | Ok vs => Ok (const_prefix elems ++ vs)
+            | Fail e => Fail e
+            end.
+Proof.
+  induction elems as [|x r IH]; intros Hp.
+  - split; [cbn; lia|]. intros G. reflexivity.
+  - cbn [forallb] in Hp. apply andb_prop in Hp. destruct Hp as [Hx Hr]. destruct (IH Hr) as [IH1 IH2].
+    cbn [const_prefix]. destruct (constant x) as [v|] eqn:Ec.
+    + cbn [List.length skipn]. split; [lia|]. intros G. cbn [seq_res].
+      rewrite (constant_den x Hx G v Ec), (IH2 G).
+      destruct (seq_res (den G) (skipn (List.length (const_prefix r)) r)); reflexivity.
+    + cbn [List.length skipn app]. split; [lia|]. intros G.
+      destruct (seq_res (den G) (x :: r)); reflexivity.
+Qed.
+
+Lemma msame_self b m : b <= m_sp m <= zlen (m_stack m) -> msame b m m.
+Proof. intros H. unfold msame. conj; try reflexivity; lia. Qed.
+
+(* the array under construction is on top of the stack and grows by the values of the elements *)
+Definition RunsArr (Dl : list (string * value) -> res (list value)) (keep : bool) (s s2 sd : cstate) (P : list Z) : Prop :=
+  forall rr v mid m r acc,
+    code_at v (ncs s) P -> data_at v sd -> cur_mid v r = Good mid ->
+    1 <= m_sp m <= zlen (m_stack m) -> znth (m_stack m) (m_sp m - 1) = Some (VArr acc) -> r_ip r = ncs s ->
+    match Dl (v_globals v) with
+    | Ok vs => exists m' r', steps rr (List.length P) (St v mid m) r = SNext (St v mid m') r' /\
+                 msame (m_sp m - 1) m m' /\ m_sp m' = m_sp m /\
+                 znth (m_stack m') (m_sp m - 1) = Some (VArr (acc ++ vs)) /\
+                 r_ctx r' = r_ctx r /\ r_ip r' = ncs s2 /\ (keep = true -> r_tmp r' = r_tmp r)
+    | Fail err => exists me ip vals, steps rr (List.length P) (St v mid m) r = SErr (St v mid me) (r_ctx r) ip err vals
+    end.
+
+Lemma RunsArr_data Dl keep s s2 sd sd' P d :
+  RunsArr Dl keep s s2 sd P -> rds sd' = d ++ rds sd -> RunsArr Dl keep s s2 sd' P.
+Proof.
+  intros H E rr v mid m r acc Hc Hd. apply H; [exact Hc|]. apply (data_at_ext v sd sd' d Hd E).
+Qed.
+
+Lemma arr_decode i0 w Kx Ax K1 A1 :
+  0 <= Kx < 8 -> 0 <= K1 < 8 -> EncodeSrc 0 Kx Ax = Some i0 -> EncodeSrc 1 K1 A1 = Some w ->
+  decode (Z.lor (Z.lor i0 (New ARR)) w) =
+  {| f_op := ARR; f_k0 := Kx; f_k1 := K1; f_k2 := 0; f_a0 := Ax; f_a1 := A1; f_a2 := 0 |}.
+Proof.
+  intros H0 H1 E0 E1.
+  replace (Z.lor (Z.lor i0 (New ARR)) w) with (Z.lor (Z.lor (New ARR) w) i0).
+  - apply (decode_op01 ARR Kx Ax K1 A1 i0 w arr_range H0 H1 E0 E1).
+  - rewrite (Z.lor_comm i0 (New ARR)), <- !Z.lor_assoc. f_equal. apply Z.lor_comm.
+Qed.
+
+Lemma list_rest fl k ix : forall l,
+  Forall (fun x => compiles (comp x) (fun G => den G x)) l ->
+  forall i s u s', (k < i)%nat -> wfcs s -> list_go fl k ix l i s = COk (u, s') ->
+  exists code, lay s s' code /\ wfcs s' /\
+               RunsArr (fun G => seq_res (den G) l) (ForbidTemp fl) s s' s' code.
+Proof.
+  induction l as [|x l IH]; intros HF i s u s' Hi Hwf H.
+  - cbn [list_go] in H. apply cret_ok in H. destruct H as [_ ->].
+    exists []. conj; [apply lay_refl|exact Hwf|].
+    intros rr v mid m r acc _ _ _ Hsp Htop Hip. cbn [seq_res steps List.length].
+    exists m, r. rewrite app_nil_r. conj; try reflexivity; try assumption.
+    apply msame_self. lia.
+  - inversion HF as [|x' l' Hx Hl]; subst.
+    cbn [list_go] in H.
+    assert (E1 : Nat.ltb i k = false) by (apply Nat.ltb_ge; lia).
+    assert (E2 : Nat.eqb i k = false) by (apply Nat.eqb_neq; lia).
+    rewrite E1, E2 in H.
+    apply cbind_ok in H. destruct H as [i0 [s1 [Hcx H]]].
+    apply Hx in Hcx; [|lia|exact Hwf]. apply spec_depth0 in Hcx.
+    destruct Hcx as [P [Kx [Ax (Lx & Wx & Ex & Okx & NTx & Xx)]]].
+    apply cbind_ok in H. destruct H as [w [s1' [Hen H]]]. apply enc_ok in Hen. destruct Hen as [-> Ew].
+    apply cbind_ok in H. destruct H as [u0 [s2 [Hem H]]]. apply emit_ok in Hem. subst s2.
+    set (instr := Z.lor (Z.lor i0 (New ARR)) w) in *.
+    destruct (IH Hl (S i) (emitted s1 instr) u s' ltac:(lia) (wfcs_emitted _ _ Wx) H) as [C [Lc [Wc Xc]]].
+    exists ((P ++ [instr]) ++ C). conj.
+    + apply (lay_trans s (emitted s1 instr) s'); [apply lay_emit; exact Lx|exact Lc].
+    + exact Wc.
+    + assert (Hdi : decode instr = {| f_op := ARR; f_k0 := Kx; f_k1 := AddrStck; f_k2 := 0; f_a0 := Ax; f_a1 := 0; f_a2 := 0 |})
+        by (apply (arr_decode i0 w Kx Ax AddrStck 0 (okind_range Kx Okx) stck_range Ex Ew)).
+      destruct Lc as (Rc & Nc & [dc Dc]). cbn [emitted rds] in Dc.
+      intros rr v mid m r acc Hc Hdat Hm Hsp Htop Hip.
+      assert (Hi_arr : znth (v_cs v) (ncs s + zlen P) = Some instr).
+      { apply code_at_app in Hc. destruct Hc as [Hc _]. exact (code_at_nth v (ncs s) P instr [] Hc). }
+      apply code_at_app in Hc. destruct Hc as [HcPi HcC]. apply code_at_app in HcPi. destruct HcPi as [HcP _].
+      assert (Hd1 : data_at v s1) by (apply (data_at_ext v s1 s' dc Hdat Dc)).
+      pose proof (Xx rr v mid m r HcP Hd1 Hm ltac:(lia) Hip) as E.
+      rewrite app_length, steps_app, length_app1, steps_app. cbn [seq_res].
+      destruct (den (v_globals v) x) as [xv|err].
+      * destruct E as [m1 [r1 [Hs1 [Hm1 [Hctx1 [Hip1 [Hkeep1 Ho]]]]]]]. rewrite Hs1.
+        assert (Hat : at_ip v r1 mid instr).
+        { split; [rewrite Hip1; destruct Lx as (_ & N & _); rewrite N; exact Hi_arr|].
+          rewrite (cur_mid_ctx v r r1 Hctx1). exact Hm. }
+        assert (Hoa : opnd v (m_sp m - 1) AddrStck 0 (VArr acc) m r).
+        { left. conj; [reflexivity|lia|exact Htop]. }
+        destruct (exec_arr rr v mid instr Kx Ax AddrStck 0 0 0 (m_sp m - 1) m m r m1 r1 acc xv Hat Hdi ltac:(lia)
+                           Hoa ltac:(discriminate) (msame_self (m_sp m - 1) m ltac:(lia)) Ho NTx Hm1)
+          as [m3 [Hs3 [Hm3 [Hsp3 Hx3]]]].
+        rewrite Hs3.
+        set (r3 := with_ip r1 (r_ip r1 + 1)).
+        assert (HcC' : code_at v (ncs (emitted s1 instr)) C).
+        { cbn [emitted ncs]. destruct Lx as (_ & N & _). rewrite N.
+          unfold zlen in *. rewrite app_length in HcC. cbn [List.length] in HcC.
+          replace (ncs s + Z.of_nat (List.length P) + 1) with (ncs s + Z.of_nat (List.length P + 1)) by lia. exact HcC. }
+        assert (Hm3' : cur_mid v r3 = Good mid).
+        { rewrite (cur_mid_ctx v r r3); [exact Hm|unfold r3; cbn [with_ip r_ctx]; exact Hctx1]. }
+        assert (Hip3 : r_ip r3 = ncs (emitted s1 instr)).
+        { unfold r3. cbn [with_ip r_ip emitted ncs]. lia. }
+        assert (Hsp3' : 1 <= m_sp m3 <= zlen (m_stack m3)) by (destruct Hm3 as (_&_&_&_&_&B); lia).
+        assert (Htop3 : znth (m_stack m3) (m_sp m3 - 1) = Some (VArr (acc ++ [xv]))).
+        { rewrite Hsp3. replace (m_sp m - 1 + 1 - 1) with (m_sp m - 1) by lia. exact Hx3. }
+        pose proof (Xc rr v mid m3 r3 (acc ++ [xv]) HcC' Hdat Hm3' Hsp3' Htop3 Hip3) as E3.
+        destruct (seq_res (den (v_globals v)) l) as [vs|err].
+        -- destruct E3 as [m' [r' [Hs' [Hm' [Hsp' [Hx' [Hctx' [Hip' Hkeep']]]]]]]]. rewrite Hs'.
+           exists m', r'. rewrite Hsp3 in *.
+           replace (m_sp m - 1 + 1) with (m_sp m) in * by lia.
+           conj; try assumption; try reflexivity.
+           ++ apply (msame_trans (m_sp m - 1) (m_sp m - 1) m m3 m'); [lia|exact Hm3|exact Hm'].
+           ++ rewrite <- app_assoc in Hx'. exact Hx'.
+           ++ rewrite Hctx'. unfold r3. cbn [with_ip r_ctx]. exact Hctx1.
+           ++ intros Hk. rewrite (Hkeep' Hk). unfold r3. cbn [with_ip r_tmp]. apply Hkeep1. exact Hk.
+        -- destruct E3 as [me [ip [vals E3]]]. rewrite E3.
+           replace (r_ctx r3) with (r_ctx r) by (unfold r3; cbn [with_ip r_ctx]; congruence). eauto.
+      * destruct E as [me [ip [vals E]]]. rewrite E. eauto.
+Qed.
+
+Lemma skipn_cons_exists {A} (l : list A) k : (k < List.length l)%nat -> exists x r, skipn k l = x :: r.
+Proof.
+  revert k. induction l as [|y l IH]; intros k H; [cbn in H; lia|].
+  destruct k as [|k]; [exists y, l; reflexivity|]. cbn [skipn]. apply IH. cbn in H. lia.
+Qed.
+
+Lemma Forall_skipn {A} (P : A -> Prop) k : forall l, Forall P l -> Forall P (skipn k l).
+Proof.
+  induction k as [|k IH]; intros l H; [exact H|]. destruct l as [|x l]; [constructor|].
+  cbn [skipn]. apply IH. inversion H; assumption.
+Qed.
+
+Lemma list_spec elems sel fl s s' w :
+  0 <= sel <= 2 -> forallb pure elems = true ->
+  Forall (fun x => compiles (comp x) (fun G => den G x)) elems -> wfcs s ->
+  comp (NList elems) sel fl s = COk (w, s') ->
+  SpecD (fun G => den G (NList elems)) sel fl s s' w.
+Proof.
+  intros Hsel Hp HF Hwf H. rewrite comp_list_unfold in H. cbv zeta in H.
+  destruct (const_prefix_split elems Hp) as [Hk Hden].
+  set (ary := const_prefix elems) in *. set (k := List.length ary) in *.
+  apply cbind_ok in H. destruct H as [ix [s0 [Hds H]]].
+  apply add_ds_ok in Hds. destruct Hds as [-> ->].
+  assert (W0 : wfcs (with_data s (VArr ary))).
+  { destruct Hwf as [A1 B1]. unfold wfcs, with_data, zlen in *; cbn [rcs ncs rds nds List.length]. split; lia. }
+  assert (L0 : lay s (with_data s (VArr ary)) []).
+  { unfold lay, with_data; cbn [rcs ncs rds rev app]. conj; [reflexivity|unfold zlen; cbn; lia|exists [VArr ary]; reflexivity]. }
+  destruct (Nat.leb_spec (List.length elems) k) as [Hall|Hsome].
+  - (* every element is a constant: the literal is a data segment entry *)
+    apply enc_ok in H. destruct H as [-> Ew].
+    apply SpecD_lay. exists [], AddrDS, (nds s). conj; try assumption.
+    + right. right. left. reflexivity.
+    + discriminate.
+    + discriminate.
+    + intros rr v mid m r _ Hdat _ Hsp Hip. cbn [den]. rewrite (Hden (v_globals v)).
+      rewrite skipn_all2 by lia. cbn [seq_res]. rewrite app_nil_r.
+      exists m, r. cbn [steps List.length]. conj; try reflexivity; try assumption.
+      * apply msame_refl. exact Hsp.
+      * right. right. left. conj; try reflexivity. apply Hdat. cbn [with_data rds]. rewrite (proj2 Hwf). apply znth_rev_cons.
+  - (* the constant prefix is in the data segment, the other elements are appended one by one *)
+    apply cbind_ok in H. destruct H as [u [s1 [Hgo H]]]. apply enc_ok in H. destruct H as [-> Ew].
+    rewrite (list_go_skip fl k (nds s) elems 0 ltac:(lia) ltac:(lia)) in Hgo. rewrite Nat.sub_0_r in Hgo.
+    destruct (skipn_cons_exists elems k Hsome) as [x [rest Esk]].
+    pose proof (Forall_skipn _ k elems HF) as HFs. rewrite Esk in HFs, Hgo.
+    inversion HFs as [|x' l' Hx Hrest]; subst.
+    cbn [list_go] in Hgo. rewrite Nat.ltb_irrefl, Nat.eqb_refl in Hgo.
+    apply cbind_ok in Hgo. destruct Hgo as [i0 [sa [Hcx Hgo]]].
+    apply Hx in Hcx; [|lia|exact W0]. apply spec_depth0 in Hcx.
+    destruct Hcx as [P [Kx [Ax (Lx & Wx & Ex & Okx & NTx & Xx)]]].
+    apply cbind_ok in Hgo. destruct Hgo as [wd [sa' [Hen Hgo]]]. apply enc_ok in Hen. destruct Hen as [-> Ewd].
+    apply cbind_ok in Hgo. destruct Hgo as [u0 [sb [Hem Hgo]]]. apply emit_ok in Hem. subst sb.
+    set (instr := Z.lor (Z.lor i0 (New ARR)) wd) in *.
+    destruct (list_rest fl k (nds s) rest Hrest (S k) (emitted sa instr) u s1 ltac:(lia) (wfcs_emitted _ _ Wx) Hgo)
+      as [C [Lc [Wc Xc]]].
+    assert (Hdi : decode instr = {| f_op := ARR; f_k0 := Kx; f_k1 := AddrDS; f_k2 := 0; f_a0 := Ax; f_a1 := nds s; f_a2 := 0 |})
+      by (apply (arr_decode i0 wd Kx Ax AddrDS (nds s) (okind_range Kx Okx) ds_range Ex Ewd)).
+    apply SpecD_lay. exists ((P ++ [instr]) ++ C), AddrStck, 0. conj.
+    + apply (lay_trans s (emitted sa instr) s1); [|exact Lc].
+      apply lay_emit. apply (lay_trans s (with_data s (VArr ary)) sa [] P L0 Lx).
+    + exact Wc.
+    + exact Ew.
+    + left. reflexivity.
+    + discriminate.
+    + discriminate.
+    + destruct Lc as (Rc & Nc & [dc Dc]). cbn [emitted rds] in Dc.
+      destruct Lx as (Rx & Nx & [dx Dx]). cbn [with_data ncs] in Nx.
+      intros rr v mid m r Hc Hdat Hm Hsp Hip.
+      assert (Hi_arr : znth (v_cs v) (ncs s + zlen P) = Some instr).
+      { apply code_at_app in Hc. destruct Hc as [Hc _]. exact (code_at_nth v (ncs s) P instr [] Hc). }
+      apply code_at_app in Hc. destruct Hc as [HcPi HcC]. apply code_at_app in HcPi. destruct HcPi as [HcP _].
+      assert (Hda : data_at v sa) by (apply (data_at_ext v sa s1 dc Hdat Dc)).
+      assert (Hary : znth (v_ds v) (nds s) = Some (VArr ary)).
+      { apply Hda. rewrite Dx. cbn [with_data rds]. rewrite rev_app_distr. apply znth_app_l.
+        rewrite (proj2 Hwf). apply znth_rev_cons. }
+      pose proof (Xx rr v mid m r HcP Hda Hm Hsp Hip) as E. cbn [with_data ncs] in E.
+      rewrite app_length, steps_app, length_app1, steps_app. cbn [den]. rewrite (Hden (v_globals v)), Esk. cbn [seq_res].
+      destruct (den (v_globals v) x) as [xv|err].
+      * destruct E as [m1 [r1 [Hs1 [Hm1 [Hctx1 [Hip1 [Hkeep1 Ho]]]]]]]. rewrite Hs1.
+        assert (Hat : at_ip v r1 mid instr).
+        { split; [rewrite Hip1, Nx; exact Hi_arr|]. rewrite (cur_mid_ctx v r r1 Hctx1). exact Hm. }
+        assert (Hoa : opnd v (m_sp m) AddrDS (nds s) (VArr ary) m r).
+        { right. right. left. conj; [reflexivity|reflexivity|exact Hary]. }
+        destruct (exec_arr rr v mid instr Kx Ax AddrDS (nds s) 0 0 (m_sp m) m m r m1 r1 ary xv Hat Hdi (proj1 Hsp)
+                           Hoa ltac:(discriminate) (msame_refl m Hsp) Ho NTx Hm1)
+          as [m3 [Hs3 [Hm3 [Hsp3 Hx3]]]].
+        rewrite Hs3.
+        set (r3 := with_ip r1 (r_ip r1 + 1)).
+        assert (HcC' : code_at v (ncs (emitted sa instr)) C).
+        { cbn [emitted ncs]. rewrite Nx.
+          unfold zlen in *. rewrite app_length in HcC. cbn [List.length] in HcC.
+          replace (ncs s + Z.of_nat (List.length P) + 1) with (ncs s + Z.of_nat (List.length P + 1)) by lia. exact HcC. }
+        assert (Hm3' : cur_mid v r3 = Good mid).
+        { rewrite (cur_mid_ctx v r r3); [exact Hm|unfold r3; cbn [with_ip r_ctx]; exact Hctx1]. }
+        assert (Hip3 : r_ip r3 = ncs (emitted sa instr)).
+        { unfold r3. cbn [with_ip r_ip emitted ncs]. lia. }
+        assert (Hsp3' : 1 <= m_sp m3 <= zlen (m_stack m3)) by (destruct Hm3 as (_&_&_&_&_&B); lia).
+        assert (Htop3 : znth (m_stack m3) (m_sp m3 - 1) = Some (VArr (ary ++ [xv]))).
+        { rewrite Hsp3. replace (m_sp m + 1 - 1) with (m_sp m) by lia. exact Hx3. }
+        pose proof (Xc rr v mid m3 r3 (ary ++ [xv]) HcC' Hdat Hm3' Hsp3' Htop3 Hip3) as E3.
+        destruct (seq_res (den (v_globals v)) rest) as [vs|err].
+        -- destruct E3 as [m' [r' [Hs' [Hm' [Hsp' [Hx' [Hctx' [Hip' Hkeep']]]]]]]]. rewrite Hs'.
+           exists m', r'. rewrite Hsp3 in *.
+           replace (m_sp m + 1 - 1) with (m_sp m) in * by lia.
+           conj; try assumption; try reflexivity.
+           ++ apply (msame_trans (m_sp m) (m_sp m) m m3 m'); [lia|exact Hm3|exact Hm'].
+           ++ rewrite Hctx'. unfold r3. cbn [with_ip r_ctx]. exact Hctx1.
+           ++ intros Hkp. rewrite (Hkeep' Hkp). unfold r3. cbn [with_ip r_tmp]. apply Hkeep1. exact Hkp.
+           ++ left. conj; [reflexivity|exact Hsp'|]. rewrite <- app_assoc in Hx'. exact Hx'.
+        -- destruct E3 as [me [ip [vals E3]]]. rewrite E3.
+           replace (r_ctx r3) with (r_ctx r) by (unfold r3; cbn [with_ip r_ctx]; congruence). eauto.
+      * destruct E as [me [ip [vals E]]]. rewrite E. eauto.
+Qed.
+
+(* ================= every pure expression ================= *)
 Theorem comp_pure_spec : forall e, pure e = true -> compiles (comp e) (fun G => den G e).
 Proof.
-  induction e; intros Hp sel fl cs w cs' Hsel Hwf H; try discriminate Hp.
-  - exact (const_spec _ sel fl cs cs' w Hwf H).
-  - exact (const_spec _ sel fl cs cs' w Hwf H).
-  - exact (const_spec _ sel fl cs cs' w Hwf H).
-  - exact (const_spec _ sel fl cs cs' w Hwf H).
-  - exact (name_spec _ sel fl cs cs' w Hwf H).
+  apply (pure_induction (fun e => compiles (comp e) (fun G => den G e))).
+  - intros i sel fl cs w cs' Hsel Hwf H. exact (const_spec _ sel fl cs cs' w Hwf H).
+  - intros f _ sel fl cs w cs' Hsel Hwf H. exact (const_spec _ sel fl cs cs' w Hwf H).
+  - intros s sel fl cs w cs' Hsel Hwf H. exact (const_spec _ sel fl cs cs' w Hwf H).
+  - intros b sel fl cs w cs' Hsel Hwf H. exact (const_spec _ sel fl cs cs' w Hwf H).
+  - intros g sel fl cs w cs' Hsel Hwf H. exact (name_spec _ sel fl cs cs' w Hwf H).
   - (* NBin *)
-    cbn [pure] in Hp. destruct (binop_opcode op) as [c|] eqn:Hc; [|discriminate].
-    apply andb_prop in Hp. destruct Hp as [Hp1 Hp2].
-    cbn [comp] in H. rewrite (has_call_pure e2 Hp2), (is_list_pure e1 Hp1), (is_list_pure e2 Hp2) in H.
-    cbn [orb] in H.
+    intros op c e1 e2 Hc Hp1 Hp2 IH1 IH2 sel fl cs w cs' Hsel Hwf H.
+    cbn [comp] in H. rewrite (has_call_pure e2 Hp2) in H.
     apply (SpecD_ext (dbin c (fun G => den G e1) (fun G => den G e2))).
     { intros G. unfold dbin. cbn [den]. rewrite Hc. reflexivity. }
-    apply (binop_spec op c (comp e1) (comp e2) (node_eqb e1 e2)); try assumption.
-    + exact (IHe1 Hp1).
-    + exact (IHe2 Hp2).
-    + intros Hs G. rewrite (node_eqb_pure e1 e2 Hp1 Hp2 Hs). reflexivity.
+    apply (binop_spec op c (comp e1) (comp e2) (is_list_node e1 || is_list_node e2) (node_eqb e1 e2)); try assumption.
+    intros _ Hs G. rewrite (node_eqb_pure e1 Hp1 e2 Hp2 Hs). reflexivity.
   - (* NUn *)
-    cbn [pure] in Hp. apply andb_prop in Hp. destruct Hp as [Ho Hpt].
+    intros op e Ho Hpt IHe sel fl cs w cs' Hsel Hwf H.
     cbn [comp] in H. destruct (String.eqb op "-") eqn:Hm.
-    + (* -t is -1 * t *)
-      rewrite (has_call_pure e Hpt), (is_list_pure e Hpt) in H.
+    + rewrite (has_call_pure e Hpt) in H.
       apply SpecD_pass.
       apply (SpecD_ext (dbin MUL (fun _ => Ok (VInt (-1))) (fun G => den G e))).
       { intros G. unfold dbin. cbn [den]. destruct (den G e) as [a|err]; [|reflexivity].
         unfold unop_sem. rewrite Hm. reflexivity. }
-      apply (binop_spec "*" MUL (fun sel _ => comp_const (VInt (-1)) sel) (comp e) (node_eqb (NInt (-1)) e));
-        try assumption.
+      apply (binop_spec "*" MUL (fun sel _ => comp_const (VInt (-1)) sel) (comp e) (is_list_node e)
+                        (node_eqb (NInt (-1)) e)); try assumption.
       * reflexivity.
       * apply const_compiles.
-      * exact (IHe Hpt).
-      * intros Hs G. rewrite <- (node_eqb_pure (NInt (-1)) e eq_refl Hpt Hs). reflexivity.
+      * intros _ Hs G. rewrite <- (node_eqb_pure (NInt (-1)) eq_refl e Hpt Hs). reflexivity.
     + destruct (unop_sem_oc op VNil Ho Hm) as [oc [Eoc [Hu _]]]. rewrite Eoc in H.
       apply (SpecD_ext (dun oc (fun G => den G e))).
       { intros G. unfold dun. cbn [den]. destruct (den G e) as [a|err]; [|reflexivity].
         destruct (unop_sem_oc op a Ho Hm) as [oc' [Eoc' [_ Es]]]. rewrite Eoc in Eoc'. injection Eoc' as <-.
         rewrite Es. reflexivity. }
       apply (unop_spec oc (comp e)); try assumption.
-      exact (IHe Hpt).
+  - (* NList *)
+    intros l Hp HF sel fl cs w cs' Hsel Hwf H. apply (list_spec l sel fl cs cs' w Hsel Hp HF Hwf H).
+  - (* NIndexAt *)
+    intros a i Ha Hi IHa IHi sel fl cs w cs' Hsel Hwf H. cbn [comp] in H.
+    apply (SpecD_ext (dtwo Index1 (fun G => den G a) (fun G => den G i))).
+    { intros G. reflexivity. }
+    apply (ix1_spec (comp a) (comp i)); assumption.
+  - (* NIndexFromTo *)
+    intros a f t Ha Hf Ht IHa IHf IHt sel fl cs w cs' Hsel Hwf H. cbn [comp] in H.
+    apply (SpecD_ext (dthree Index2 (fun G => den G a) (fun G => den G f) (fun G => den G t))).
+    { intros G. reflexivity. }
+    apply (ix2_spec (comp a) (comp f) (comp t)); assumption.
 Qed.
